@@ -244,20 +244,33 @@ Proof. vm_compute. reflexivity. Qed.
    unconditional signal(sig, sigHandler) in ~ScopedSig, main() keeps ignored signals ignored and restores nothing *)
 Example c18_os_code_shape :
   Consts_C18.handler_ignores_first = true /\ Consts_C18.handler_reinstalls_always = true /\
-  Consts_C18.main_keeps_ignored = true /\ Consts_C18.main_restores_dispositions = false /\ Consts_C18.main_resets_state = true.
+  Consts_C18.main_keeps_ignored = true /\ Consts_C18.main_restores_dispositions = false /\ Consts_C18.main_resets_state = true /\
+  Consts_C18.reset_only_if_registered = true /\ Consts_C18.dtor_resets = true /\ Consts_C18.main_registers = true /\
+  Consts_C18.ctor_registers = false /\
+  Consts_C18.setalarm_installs_unconditionally = true /\ Consts_C18.killalarm_only_cancels = true /\
+  Consts_C18.main_arms_time_limit = true.
 Proof. repeat split; reflexivity. Qed.
 
 Theorem c18_os_model_uses_code_constants : forall s x r,
-  (hs s = mkS x PEnter :: r -> (dsp (ostep 0 s) x = DIgnore <-> Consts_C18.handler_ignores_first = true)) /\
+  (hs s = mkS x PEnter :: r -> inst (reg s) = Some O ->
+     (dsp (ostep 0 s) x = DIgnore <-> Consts_C18.handler_ignores_first = true)) /\
   (hs s = mkS x PExit :: r -> (dsp (ostep 0 s) x = DHandler <-> Consts_C18.handler_reinstalls_always = true)) /\
-  (forall d o a, is_reg x = true -> d x = DIgnore ->
-     (dsp (os_main d o a) x = DIgnore <-> Consts_C18.main_keeps_ignored = true) /\
-     (blocked (core (os_main d o a)) = 0 /\ pending (core (os_main d o a)) = 0 <-> Consts_C18.main_resets_state = true)).
+  (forall tl d r0 f a ra, is_reg x = true -> d x = DIgnore ->
+     (dsp (os_main tl d r0 f a ra) x = DIgnore <-> Consts_C18.main_keeps_ignored = true) /\
+     (blocked (core (os_main tl d r0 f a ra)) = 0 /\ pending (core (os_main tl d r0 f a ra)) = 0 <-> Consts_C18.main_resets_state = true) /\
+     (inst (reg (os_main tl d r0 f a ra)) = Some O <-> Consts_C18.main_registers = true)) /\
+  (* ~Application of another object b / of the running object; new App() *)
+  (forall b, b <> O -> (reset_inst b (Some O) = Some O <-> Consts_C18.reset_only_if_registered = true)) /\
+  (reset_inst O (Some O) = None <-> Consts_C18.dtor_resets = true) /\
+  (forall r0 fl r', oflow r0 = ONew :: fl -> objstep r0 = Some r' -> (inst r' = inst r0 <-> Consts_C18.ctor_registers = false)).
 Proof.
-  intros s x r. split; [|split].
+  intros s x r. split; [|split; [|split; [|split; [|split]]]].
+  - intros H Hi. unfold ostep. simpl. rewrite H. simpl. rewrite Hi. simpl. unfold upd. rewrite Z.eqb_refl. split; reflexivity.
   - intro H. unfold ostep. simpl. rewrite H. simpl. unfold upd. rewrite Z.eqb_refl. split; reflexivity.
-  - intro H. unfold ostep. simpl. rewrite H. simpl. unfold upd. rewrite Z.eqb_refl. split; reflexivity.
-  - intros d o a Hx Hd. simpl. rewrite Hx, Hd. simpl. repeat split; reflexivity.
+  - intros tl d r0 f a ra Hx Hd. simpl. rewrite Hx, Hd. simpl. repeat split; reflexivity.
+  - intros b Hb. destruct b; [contradiction|]. split; reflexivity.
+  - split; reflexivity.
+  - intros r0 fl r' Hf Ho. unfold objstep in Ho. rewrite Hf in Ho. inversion Ho. simpl. split; reflexivity.
 Qed.
 Print Assumptions c18_os_model_uses_code_constants.
 
@@ -271,14 +284,15 @@ Theorem c18_os_dispositions : forall pre s x, oreach pre s -> is_reg x = true ->
 Proof. exact os_dispositions. Qed.
 Print Assumptions c18_os_dispositions.
 
-(* the sigHandler activations: at most one per number is past its first statement; those in their processSignal call
+(* the sigHandler activations: at most one per registered number is past its first statement (SIGALRM can have several:
+   a callback may re-install its handler, see section 7); those in their processSignal call
    are exactly the activations of the core model that are not the nested call of unblockSignals; only registered,
    not environment-ignored numbers ever get one *)
 Theorem c18_os_handlers : forall pre s, oreach pre s ->
-  NoDup (busy (hs s)) /\
+  NoDup (filter is_reg (busy (hs s))) /\
   map h_sig (nondef (stack (core s))) = running (hs s) /\
   (forall x, In x (running (hs s)) -> In x (busy (hs s))) /\
-  (forall x, In x (map s_sig (hs s)) -> is_reg x = true /\ pre x = false).
+  (forall x, In x (map s_sig (hs s)) -> x = alarm_sig \/ (is_reg x = true /\ pre x = false)).
 Proof. exact os_handlers. Qed.
 Print Assumptions c18_os_handlers.
 
@@ -292,9 +306,9 @@ Print Assumptions c18_os_quiescent.
    for d is in progress; otherwise sigHandler starts and its next step is the call processSignal(d) = an arrival of the
    core model (with d ignored from then on) *)
 Theorem c18_os_arrival : forall pre s d, oreach pre s -> is_reg d = true -> pre d = false ->
-  (In d (busy (hs s)) -> ostep d s = mkO (core s) (dsp s) (hs s) (acc s) (drp s ++ [d])) /\
+  (In d (busy (hs s)) -> ostep d s = mkO (core s) (dsp s) (hs s) (acc s) (drp s ++ [d]) (reg s)) /\
   (~ In d (busy (hs s)) ->
-     ostep d s = mkO (core s) (dsp s) (mkS d PEnter :: hs s) (acc s ++ [d]) (drp s) /\
+     ostep d s = mkO (core s) (dsp s) (mkS d PEnter :: hs s) (acc s ++ [d]) (drp s) (reg s) /\
      let s2 := ostep 0 (ostep d s) in
      core s2 = arrive d (core s) /\ hs s2 = mkS d PRun :: hs s /\ dsp s2 d = DIgnore /\ drp s2 = drp s).
 Proof. exact os_arrival. Qed.
@@ -302,8 +316,10 @@ Print Assumptions c18_os_arrival.
 
 (* ... and this is the only way a signal fails to reach the application object *)
 Theorem c18_os_dropped_only_if : forall pre s d, oreach pre s -> drp (ostep d s) <> drp s ->
-  d <> 0 /\ is_reg d = true /\ (pre d = true \/ In d (busy (hs s))) /\
-  ostep d s = mkO (core s) (dsp s) (hs s) (acc s) (drp s ++ [d]).
+  d <> 0 /\
+  ((is_reg d = true /\ (pre d = true \/ In d (busy (hs s)))) \/
+   (d = alarm_sig /\ ((alarm_set (reg s) = false /\ pre alarm_sig = true) \/ In alarm_sig (busy (hs s))))) /\
+  ostep d s = mkO (core s) (dsp s) (hs s) (acc s) (drp s ++ [d]) (reg s).
 Proof. exact os_dropped_only_if. Qed.
 Print Assumptions c18_os_dropped_only_if.
 
@@ -326,15 +342,17 @@ Theorem c18_os_exactly_once : forall pre s, oreach pre s ->
 Proof. exact os_exactly_once. Qed.
 Print Assumptions c18_os_exactly_once.
 
-(* immediate, read from the OS-level arrival (step level, any state): handler installed and blocked_ = 0 -> after the
+(* immediate, read from the OS-level arrival (step level, any state): handler installed, the running object registered and blocked_ = 0 -> after the
    steps of its own activation the callback has been entered with d *)
-Theorem c18_os_immediate : forall s d, d <> 0 -> is_reg d = true -> dsp s d = DHandler -> blocked (core s) = 0 ->
+Theorem c18_os_immediate : forall s d, d <> 0 -> is_sig d = true -> dsp s d = DHandler -> inst (reg s) = Some O -> blocked (core s) = 0 ->
   let s4 := oexec [d; 0; 0; 0] s in
   fates (core s4) = (length (arrs (core s)), FDelivered d) :: fates (core s) /\
   arrs (core s4) = arrs (core s) ++ [d] /\
   stack (core s4) = mkH d (length (arrs (core s))) false HCbExit 0 :: stack (core s) /\
   blocked (core s4) = 1 /\
-  hs s4 = mkS d PRun :: hs s /\ dsp s4 d = DIgnore /\ drp s4 = drp s /\ acc s4 = acc s ++ [d].
+  hs s4 = mkS d PRun :: hs s /\
+  dsp s4 d = (if (d =? alarm_sig) && hd false (rearm (reg s)) then DHandler else DIgnore) /\
+  drp s4 = drp s /\ acc s4 = acc s ++ [d].
 Proof. exact os_immediate. Qed.
 Print Assumptions c18_os_immediate.
 
@@ -351,6 +369,28 @@ Theorem c18_os_below_stable : forall d s e r,
 Proof. exact os_below_stable. Qed.
 Print Assumptions c18_os_below_stable.
 
+(* ---- which object sigHandler delivers to (instance_s) ----
+   While main() of the application object (number 0) runs - any run, any main flow including construction / destruction of
+   other application objects and copy-and-drop of the running one, any answers, any schedule - instance_s is the running
+   object, so (c18_os_arrival, c18_os_later_signal_handled) every arrival the OS does not discard reaches ITS processSignal;
+   sigHandler never calls through a null or foreign pointer. *)
+Theorem c18_os_registered : forall pre s, oreach pre s ->
+  inst (reg s) = Some O /\ fault (reg s) = false /\ Forall (fun b => b <> O) (live (reg s)).
+Proof. exact os_registered. Qed.
+Print Assumptions c18_os_registered.
+
+(* the operations on other objects are steps of the main flow that change neither the application object nor the registration *)
+Theorem c18_os_other_objects : forall pre s r',
+  oreach pre s -> hs s = [] -> at_op (core s) = true -> objstep (reg s) = Some r' ->
+  ostep 0 s = mkO (core s) (objdsp (reg s) (dsp s)) [] (acc s) (drp s) r' /\ inst r' = Some O.
+Proof. exact os_other_objects. Qed.
+Print Assumptions c18_os_other_objects.
+
+(* after the destruction of the application object nothing is registered *)
+Theorem c18_os_destroyed : forall pre s, oreach pre s -> inst (reg (os_destroy s)) = None.
+Proof. exact os_destroyed. Qed.
+Print Assumptions c18_os_destroyed.
+
 (* the OS-level trace producer stays inside [oreach] and never runs out of fuel *)
 Theorem c18_os_run_reachable : forall pre n ds s, oreach pre s -> oreach pre (snd (orun n ds s)).
 Proof. exact orun_reach. Qed.
@@ -361,19 +401,19 @@ Theorem c18_os_fuel_sufficient : forall n ds s,
 Proof. exact ofuel_sufficient. Qed.
 Print Assumptions c18_os_fuel_sufficient.
 
-Theorem c18_os_run_with_fuel : forall m mask n r dsp0 a (ds : list Z),
+Theorem c18_os_run_with_fuel : forall m mask n r tlim dsp0 r0 a ra (ds : list Z),
   let c := m :: mask :: n :: r in
-  let o := decode_ops (firstn (Z.to_nat n) r) in
+  let f := decode_fops (firstn (Z.to_nat n) r) in
   let r1 := skipn (Z.to_nat n) r in
   let k := Z.to_nat (hd 0 r1) in
   let r2 := skipn k (tl r1) in
-  (length ds <= length r2)%nat -> (omeasure (os_main dsp0 o a) + 8 * length ds < ofuel_of c)%nat.
+  (length ds <= length r2)%nat -> (omeasure (os_main tlim dsp0 r0 f a ra) + 8 * length ds < ofuel_of c)%nat.
 Proof. exact orun_with_fuel. Qed.
 Print Assumptions c18_os_run_with_fuel.
 
 (* ---- non-vacuity ---- *)
 Definition nopre : Z -> bool := fun _ => false.
-Definition os0 (o : list op) (a : list bool) : ost := os_main (boot nopre) o a.
+Definition os0 (o : list op) (a : list bool) : ost := os_main false (boot nopre) reg0 (map FCore o) a [].
 
 (* Block; signal 1 arrives through sigHandler while the application holds the block: remembered, handler re-installed
    although blocked_ = 1 ... *)
@@ -415,13 +455,13 @@ Proof. split; [apply oreach_oexec; constructor; reflexivity|vm_compute; repeat s
 (* a number the environment had ignored stays ignored; a second run of main() starts from the dispositions of the first *)
 Example ex_os_environment_and_second_run :
   let pre := fun x => x =? 2 in
-  let s1 := oexec [2; 1; 0; 0; 0; 0; 0; 0] (os_main (boot pre) [] []) in
-  let s2 := oexec [1; 0; 0; 0] (os_main (dsp s1) [Block; Unblock true] []) in
+  let s1 := oexec [2; 1; 0; 0; 0; 0; 0; 0] (os_main false (boot pre) reg0 [] [] []) in
+  let s2 := oexec [1; 0; 0; 0] (os_main false (dsp s1) (reg s1) [FCore Block; FCore (Unblock true)] [] []) in
   oreach pre s1 /\ idle s1 = true /\ drp s1 = [2] /\ acc s1 = [1] /\ oreach pre s2 /\
   map (dsp s2) registered = [DIgnore; DIgnore; DHandler] /\ acc s2 = [1].
 Proof.
   cbv zeta.
-  assert (H1 : oreach (fun x => x =? 2) (oexec [2; 1; 0; 0; 0; 0; 0; 0] (os_main (boot (fun x => x =? 2)) [] []))).
+  assert (H1 : oreach (fun x => x =? 2) (oexec [2; 1; 0; 0; 0; 0; 0; 0] (os_main false (boot (fun x => x =? 2)) reg0 [] [] []))).
   { apply oreach_oexec. constructor. reflexivity. }
   split; [exact H1|]. split; [vm_compute; reflexivity|]. split; [vm_compute; reflexivity|]. split; [vm_compute; reflexivity|].
   split; [|vm_compute; split; reflexivity].
@@ -436,11 +476,160 @@ Example ex_os_entry_interrupted :
 Proof. split; [apply oreach_oexec; constructor; reflexivity|vm_compute; repeat split; reflexivity]. Qed.
 
 Example c18_os_smoke : Disp.run_case [-1; 0; 2; 1; 3; 0; 0; 1; 0; 0; 0; 0; 0; 0; 0; 0; 0; 0; 1] =
-  [7;0;0;40;1;1;1; 8;1;0;40;1;1;1; 30;1; 1;1;0;40;2;1;1; 4;2;0;40;2;1;1; 5;2;0;40;2;1;1; 6;2;1;40;2;1;1;
-   8;1;1;40;1;1;1; 9;0;1;40;1;1;1; 1;0;0;40;1;1;1; 2;1;0;40;1;1;1; 20;1; 3;1;0;40;1;1;1; 21;1; 6;1;0;40;1;1;1;
-   0;0;0;40;1;1;1; 30;1; 1;0;0;40;2;1;1; 2;1;0;40;2;1;1; 20;1; 3;1;0;40;2;1;1; 21;1; 6;1;0;40;2;1;1;
-   0;0;0;40;1;1;1; 41;1;1;1].
+  [7;0;0;40;1;1;1;0;1; 8;1;0;40;1;1;1;0;1; 30;1; 1;1;0;40;2;1;1;0;1; 4;2;0;40;2;1;1;0;1; 5;2;0;40;2;1;1;0;1; 6;2;1;40;2;1;1;0;1;
+   8;1;1;40;1;1;1;0;1; 9;0;1;40;1;1;1;0;1; 1;0;0;40;1;1;1;0;1; 2;1;0;40;1;1;1;0;1; 20;1; 3;1;0;40;1;1;1;0;1; 21;1; 6;1;0;40;1;1;1;0;1;
+   0;0;0;40;1;1;1;0;1; 30;1; 1;0;0;40;2;1;1;0;1; 2;1;0;40;2;1;1;0;1; 20;1; 3;1;0;40;2;1;1;0;1; 21;1; 6;1;0;40;2;1;1;0;1;
+   0;0;0;40;1;1;1;0;1; 41;1;1;1;0;1; 42;0].
 Proof. vm_compute. reflexivity. Qed.
+
+(* other application objects come and go (construct, destroy, copy-and-drop of the running object) before a signal
+   arrives: the running object stays registered and the arrival is in its callback after its own three steps *)
+Example ex_os_other_objects_then_arrival :
+  let s := oexec [0; 0; 0; 1; 0; 0; 0] (os_main false (boot nopre) reg0 [FNew; FDel; FCopy] [] []) in
+  oreach nopre s /\ inst (reg s) = Some O /\ live (reg s) = [] /\ nxt (reg s) = 3%nat /\ fault (reg s) = false /\
+  fates (core s) = [(O, FDelivered 1)] /\ acc s = [1] /\ drp s = [] /\
+  objstep (reg (oexec [0] (os_main false (boot nopre) reg0 [FNew; FDel; FCopy] [] []))) <> None.
+Proof.
+  split; [apply oreach_oexec; constructor; reflexivity|]. vm_compute. repeat split; try reflexivity. discriminate.
+Qed.
+
+(* another object is still alive when the run ends and is destroyed in the next run of main(), between two arrivals *)
+Example ex_os_other_object_across_runs :
+  let s1 := oexec [0; 1; 0; 0; 0; 0; 0; 0] (os_main false (boot nopre) reg0 [FNew] [] []) in
+  let s2 := oexec [2; 0; 0; 0; 0; 0; 0; 0; 2; 0; 0; 0] (os_main false (dsp s1) (reg s1) [FDel] [] []) in
+  oreach nopre s1 /\ idle s1 = true /\ live (reg s1) = [1%nat] /\ oreach nopre s2 /\ live (reg s2) = [] /\
+  inst (reg s2) = Some O /\ fates (core s2) = [(1%nat, FDelivered 2); (O, FDelivered 2)] /\
+  inst (reg (os_destroy s2)) = None.
+Proof.
+  cbv zeta.
+  assert (H1 : oreach nopre (oexec [0; 1; 0; 0; 0; 0; 0; 0] (os_main false (boot nopre) reg0 [FNew] [] []))).
+  { apply oreach_oexec. constructor. reflexivity. }
+  split; [exact H1|]. split; [vm_compute; reflexivity|]. split; [vm_compute; reflexivity|].
+  split; [|vm_compute; repeat split; reflexivity].
+  apply oreach_oexec. apply oreach_again; [exact H1|vm_compute; reflexivity|reflexivity].
+Qed.
+
+(* what the model says about the code as it is AFTER the application object was destroyed (outside the property: no running
+   application object): the handlers are still installed, an arrival calls processSignal through a null pointer *)
+Example ex_os_arrival_after_destruction :
+  let s := os_destroy (oexec [1; 0; 0; 0; 0; 0; 0] (os0 [] [])) in
+  inst (reg s) = None /\ dsp s 1 = DHandler /\ fault (reg (oexec [1; 0] s)) = true.
+Proof. vm_compute. repeat split; reflexivity. Qed.
+
+(* ==== 7. SIGALRM: setAlarm / killAlarm, the time limit of main(), callbacks that re-arm the alarm ==== *)
+(* SIGALRM (number 4) is not in getSignals(); setAlarm(n > 0) installs its handler UNCONDITIONALLY (it does not keep an
+   ignored SIGALRM ignored, unlike main()'s loop), killAlarm / setAlarm(0) only cancel the timer.  For every environment
+   (pre), run (with or without time limit), flow (incl. FSetAlarm / FKillAlarm), answers (incl. re-arming callbacks) and
+   schedule: *)
+Theorem c18_os_alarm_model_uses_code_constants : forall s fl,
+  (hs s = [] -> at_op (core s) = true -> oflow (reg s) = OSetAlarm :: fl ->
+     (forall v, dsp s alarm_sig = v -> dsp (ostep 0 s) alarm_sig = DHandler) <-> Consts_C18.setalarm_installs_unconditionally = true) /\
+  (hs s = [] -> at_op (core s) = true -> oflow (reg s) = OKillAlarm :: fl ->
+     (dsp (ostep 0 s) alarm_sig = dsp s alarm_sig <-> Consts_C18.killalarm_only_cancels = true)) /\
+  (forall d r f a ra, dsp (os_main true d r f a ra) alarm_sig = DHandler <-> Consts_C18.main_arms_time_limit = true).
+Proof.
+  intros s fl. split; [|split].
+  - intros Hh Ha Hf. split; [reflexivity|]. intros _ v _. apply (os_setalarm_step s fl Hh Ha Hf).
+  - intros Hh Ha Hf. unfold ostep. simpl. rewrite Hh, Ha. unfold objstep, objdsp. rewrite Hf. simpl. split; reflexivity.
+  - intros. split; reflexivity.
+Qed.
+Print Assumptions c18_os_alarm_model_uses_code_constants.
+
+(* once setAlarm(n > 0) has been executed and no SIGALRM handler activation is in progress, the handler is installed -
+   even if the environment had SIGALRM ignored (case B) ... *)
+Theorem c18_os_alarm_installed : forall pre s, oreach pre s ->
+  alarm_set (reg s) = true -> ~ In alarm_sig (busy (hs s)) -> dsp s alarm_sig = DHandler.
+Proof. exact os_alarm_installed. Qed.
+Print Assumptions c18_os_alarm_installed.
+
+(* ... so an expiring alarm starts sigHandler, whose next step is processSignal on the running object ... *)
+Theorem c18_os_alarm_arrival : forall pre s, oreach pre s -> alarm_set (reg s) = true -> ~ In alarm_sig (busy (hs s)) ->
+  ostep alarm_sig s = mkO (core s) (dsp s) (mkS alarm_sig PEnter :: hs s) (acc s ++ [alarm_sig]) (drp s) (reg s) /\
+  let s2 := ostep 0 (ostep alarm_sig s) in
+  core s2 = arrive alarm_sig (core s) /\ hs s2 = mkS alarm_sig PRun :: hs s /\ drp s2 = drp s.
+Proof. exact os_alarm_arrival. Qed.
+Print Assumptions c18_os_alarm_arrival.
+
+(* ... and with blocked_ = 0 it is in the callback after its own three steps *)
+Theorem c18_os_alarm_handled : forall pre s, oreach pre s -> alarm_set (reg s) = true -> ~ In alarm_sig (busy (hs s)) ->
+  blocked (core s) = 0 ->
+  let s4 := oexec [alarm_sig; 0; 0; 0] s in
+  In (length (arrs (core s)), FDelivered alarm_sig) (fates (core s4)) /\ drp s4 = drp s /\ oreach pre s4.
+Proof. exact os_alarm_handled. Qed.
+Print Assumptions c18_os_alarm_handled.
+
+(* before any setAlarm: the disposition is what the environment left, no SIGALRM activation exists *)
+Theorem c18_os_alarm_unset : forall pre s, oreach pre s -> alarm_set (reg s) = false ->
+  dsp s alarm_sig = boot pre alarm_sig /\ ~ In alarm_sig (map s_sig (hs s)).
+Proof. exact os_alarm_unset. Qed.
+Print Assumptions c18_os_alarm_unset.
+
+(* the three places that execute setAlarm(n > 0): the main flow (any state: also over an ignored disposition), main() with
+   a time limit, and a re-arming callback at its entry (also inside a SIGALRM activation whose ScopedSig has set SIG_IGN:
+   case A - the code as it is leaves the handler INSTALLED while that activation is still in progress) *)
+Theorem c18_os_setalarm_step : forall s fl, hs s = [] -> at_op (core s) = true -> oflow (reg s) = OSetAlarm :: fl ->
+  dsp (ostep 0 s) alarm_sig = DHandler /\ alarm_set (reg (ostep 0 s)) = true /\ core (ostep 0 s) = core s /\
+  hs (ostep 0 s) = [] /\ (forall y, y <> alarm_sig -> dsp (ostep 0 s) y = dsp s y).
+Proof. exact os_setalarm_step. Qed.
+Print Assumptions c18_os_setalarm_step.
+
+Theorem c18_os_rearm_step : forall s,
+  match hs s with [] => True | e :: _ => s_ph e = PRun end ->
+  cb_enter (core s) = true -> hd false (rearm (reg s)) = true ->
+  dsp (ostep 0 s) alarm_sig = DHandler /\ alarm_set (reg (ostep 0 s)) = true /\ core (ostep 0 s) = step true 0 (core s).
+Proof. exact os_rearm_step. Qed.
+Print Assumptions c18_os_rearm_step.
+
+(* whenever the handler of a number is installed (registered or SIGALRM, activation of the same number in progress or not)
+   an arrival is not discarded: it starts sigHandler and reaches processSignal.  With c18_os_rearm_step: an alarm that expires
+   after the running callback re-armed it is NOT lost - in this no-mask, one-thread reading it re-enters sigHandler, finds
+   blocked_ <> 0 and is remembered / discarded by the application object like any arrival during a callback. *)
+Theorem c18_os_handler_arrival : forall pre s d, oreach pre s -> is_sig d = true -> dsp s d = DHandler ->
+  ostep d s = mkO (core s) (dsp s) (mkS d PEnter :: hs s) (acc s ++ [d]) (drp s) (reg s) /\
+  let s2 := ostep 0 (ostep d s) in
+  core s2 = arrive d (core s) /\ hs s2 = mkS d PRun :: hs s /\ dsp s2 d = DIgnore /\ drp s2 = drp s.
+Proof. exact os_handler_arrival. Qed.
+Print Assumptions c18_os_handler_arrival.
+
+(* case B: the environment had SIGALRM ignored; setAlarm from the main flow; the alarm is in the callback at once *)
+Example ex_os_alarm_env_ignored :
+  let pre := fun x => x =? 4 in
+  let s0 := os_main false (boot pre) reg0 [FSetAlarm] [] [] in
+  let s := oexec [0; 4; 0; 0; 0] s0 in
+  oreach pre s /\ dsp s0 alarm_sig = DIgnore /\ drp (ostep 4 s0) = [4] /\
+  dsp (ostep 0 s0) alarm_sig = DHandler /\ fates (core s) = [(O, FDelivered 4)] /\ drp s = [] /\ acc s = [4].
+Proof. split; [apply oreach_oexec; constructor; reflexivity|vm_compute; repeat split; reflexivity]. Qed.
+
+(* case B through main() with a time limit *)
+Example ex_os_alarm_time_limit :
+  let pre := fun x => x =? 4 in
+  let s := oexec [4; 0; 0; 0] (os_main true (boot pre) reg0 [] [] []) in
+  oreach pre s /\ fates (core s) = [(O, FDelivered 4)] /\ drp s = [].
+Proof. split; [apply oreach_oexec; constructor; reflexivity|vm_compute; repeat split; reflexivity]. Qed.
+
+(* case A: the callback of the first alarm re-arms it; the second alarm arrives while that callback still runs: it is not
+   discarded by the OS, it is remembered by the application object (pending_ = 4) and the handler is installed at the end *)
+Example ex_os_alarm_rearm_in_callback :
+  let s0 := os_main false (boot nopre) reg0 [FSetAlarm] [true] [true] in
+  let s3 := oexec [0; 4; 0; 0; 0] s0 in
+  let s := oexec [4; 0; 0; 0; 0; 0; 0; 0; 0; 0] s3 in
+  oreach nopre s /\ busy (hs s3) = [4] /\ dsp s3 alarm_sig = DHandler /\
+  drp s = [] /\ acc s = [4; 4] /\ pending (core s) = 4 /\ fates (core s) = [(O, FDelivered 4)] /\
+  hs s = [] /\ blocked (core s) = 0 /\ dsp s alarm_sig = DHandler.
+Proof. split; [apply oreach_oexec; apply oreach_oexec; constructor; reflexivity|vm_compute; repeat split; reflexivity]. Qed.
+
+(* hypotheses of c18_os_alarm_handled / c18_os_rearm_step are satisfiable *)
+Example ex_os_alarm_hyps :
+  let s := oexec [0] (os_main false (boot nopre) reg0 [FSetAlarm] [] []) in
+  let t := oexec [0; 4; 0; 0] (os_main false (boot nopre) reg0 [FSetAlarm] [true] [true]) in
+  oreach nopre s /\ alarm_set (reg s) = true /\ ~ In alarm_sig (busy (hs s)) /\ blocked (core s) = 0 /\
+  oreach nopre t /\ match hs t with [] => True | e :: _ => s_ph e = PRun end /\ cb_enter (core t) = true /\
+  hd false (rearm (reg t)) = true /\ dsp t alarm_sig = DIgnore.
+Proof.
+  cbv zeta. split; [apply oreach_oexec; constructor; reflexivity|].
+  split; [reflexivity|]. split; [vm_compute; tauto|]. split; [reflexivity|].
+  split; [apply oreach_oexec; constructor; reflexivity|]. vm_compute. repeat split; reflexivity.
+Qed.
 
 (* the direct-processSignal cases are unchanged *)
 Example c18_run_case_direct : forall m r, (m <? 0) = false -> Disp.run_case (m :: r) = run_direct (m :: r).
